@@ -1,4 +1,5 @@
 import Nject.WF
+import Nject.Edit
 /-
   Line-protocol driver: reads the case blocks the Go harness writes, rebuilds the compiled
   chain from the implementation's own S7 dump, runs `Exec` and `Spec` with the scripted
@@ -202,13 +203,27 @@ structure CaseAcc where
   uv : List (Nat × Nat) := []
   bindOk : Bool := false
   ops : List (String × List Val) := []
+  enodes : List ENode := []        -- pre-edit list (reversed)
 deriving Inhabited
+
+def fmtEditErr : EditErr → String
+  | .twoTags => "E_EDIT_TWO_TAGS"
+  | .missing => "E_EDIT_MISSING"
+  | .dup => "E_EDIT_DUP"
+  | .selfTarget => "E_EDIT_SELF"
+  | .fuel => "FUEL"
+
+/-- S1: the model's edited order -/
+def runEdit (a : CaseAcc) : String :=
+  match editAll a.enodes.reverse with
+  | .ok l => "m1 ok " ++ (if l.isEmpty then "-" else ",".intercalate (l.map fun n => toString n.idx))
+  | .error e => "m1 err " ++ fmtEditErr e
 
 /-- run all ops through Exec and Spec; returns output lines -/
 def runCase (a : CaseAcc) : List String :=
-  if !a.bindOk then [s!"case {a.n}", "skip nobind", "end"] else
+  if !a.bindOk then [s!"case {a.n}", runEdit a, "skip nobind", "end"] else
   match mkCompiled a.vcount a.flines.reverse a.dv a.uv with
-  | none => [s!"case {a.n}", "skip nodump", "end"]
+  | none => [s!"case {a.n}", runEdit a, "skip nodump", "end"]
   | some c =>
     let b := mkBeh a.scripts
     let wf := match checkWF c with
@@ -230,13 +245,17 @@ def runCase (a : CaseAcc) : List String :=
       (ls ++ evs.map ("s " ++ ·) ++ [s!"s ret {fmtVals res}"], s')) ([], c.specBindState)
     let (fl, fnode) := (buildProg c.run c.fin).flatten
     let prog := if fl.map (·.id) == c.run.map (·.id) && fnode.id == c.fin.id then "prog ok" else "prog fail"
-    [s!"case {a.n}", wf, sup, prog] ++ xl ++ sl ++ ["end"]
+    [s!"case {a.n}", runEdit a, wf, sup, prog] ++ xl ++ sl ++ ["end"]
 
 def stepLine (a : CaseAcc) (line : String) : CaseAcc × List String :=
   let toks := (line.splitOn " ").filter (· != "")
   match toks with
   | "case" :: n :: _ => ({ n := n }, [])
   | "p" :: _ => ({ a with scripts := parseScript toks :: a.scripts }, [])
+  | "e" :: i :: _ =>
+    ({ a with enodes := { idx := i.toNat?.getD 0, origin := fieldNat toks "origin", rep := fieldNat toks "rep",
+                          bef := fieldNat toks "bef", aft := fieldNat toks "aft",
+                          nonFinal := fieldNat toks "nf" == 1 } :: a.enodes }, [])
   | "dump" :: stage :: _ =>
     if stage == "S7" then ({ a with inS7 := true, flines := [], vcount := fieldNat toks "vcount" }, [])
     else ({ a with inS7 := false }, [])
